@@ -1,7 +1,9 @@
-/-! M-ELECT prototype (turn level): election.go over the CAS record of db.go:316-342 -/
+import DrummerVerif.Gen.GenConst
+/-! M-ELECT (turn level): election.go over the CAS record of db.go:316-342 -/
 namespace Elect
 
-def deadLeaderMinRound : Nat := 3
+/-- regenerated from election.go -/
+def deadLeaderMinRound : Nat := Drummer.Gen.deadLeaderMinRound
 
 structure Cur where
   inst : Nat
